@@ -487,7 +487,7 @@ def run(ctx, args):
               ("overflow", "a" + "[b" * NESTING_OVERFLOW + "]" * NESTING_OVERFLOW)]
     cases += [("nesting", "a[" + "(" * d + "1" + ")" * d + "]") for d in (10, 60)]
     seen = set(s for _, s in cases)
-    n = 2500 if quick else 40000
+    n = 2500 if quick else 30000
     while len(cases) < n:
         fam, s = gen_case(ctx.rng)
         if s in seen or len(s) > 60 or max_nesting(s) >= NESTING_MODELLED:
@@ -496,7 +496,7 @@ def run(ctx, args):
         cases.append((fam, s))
     check_cases(ctx, cases)
     cache_half(ctx, 40 if quick else 600, 120)
-    direct_search(ctx, 40000 if quick else 1500000)
+    direct_search(ctx, 40000 if quick else 1000000)
     return ctx.finish(
         rule="expressions: fixed list of boundary cases + generated token soups over the XPath vocabulary (names, axes, "
              "functions, every operator and bracket, quotes, escapes, Unicode digits/names, stray characters), truncations / "
